@@ -146,6 +146,7 @@ type Exec struct {
 	recBusy map[string]bool
 	exitHits map[string]int
 	returnPCs []string // path conditions of the returns of the function under verification
+	holdClock  bool           // havoc for a pure callee with ghost-only effects: do not advance the allocation clock
 	atCallArgs map[string]Val // callee parameter name -> argument, while an at-call clause is evaluated
 	atCallSkipped map[string]bool
 	inferN, inferQueries int
